@@ -201,20 +201,21 @@ impl<'a> UserModel<'a> {
                 let new_style = self.model.get_style_for_cell(sheet, source_row, column)?;
                 self.model.set_cell_style(sheet, row, column, &new_style)?;
 
-                // Add the diffs
-                diff_list.push(Diff::SetCellStyle {
-                    sheet,
-                    row,
-                    column,
-                    old_value: Box::new(old_style),
-                    new_value: Box::new(new_style),
-                });
+                // Add the diffs, in the order the changes were made: redo replays them
+                // in this order, and typing the value can change the style
                 diff_list.push(Diff::SetCellValue {
                     sheet,
                     row,
                     column,
                     new_value: target_value.to_string(),
                     old_value: Box::new(old_value),
+                });
+                diff_list.push(Diff::SetCellStyle {
+                    sheet,
+                    row,
+                    column,
+                    old_value: Box::new(old_style),
+                    new_value: Box::new(new_style),
                 });
 
                 self.fill_cell_link(sheet, source_row, column, row, column, old_link, &mut diff_list)?;
@@ -348,21 +349,21 @@ impl<'a> UserModel<'a> {
 
                 self.model.set_cell_style(sheet, row, column, &new_style)?;
 
-                // Add the diffs
-                diff_list.push(Diff::SetCellStyle {
-                    sheet,
-                    row,
-                    column,
-                    old_value: Box::new(old_style),
-                    new_value: Box::new(new_style),
-                });
-
+                // Add the diffs, in the order the changes were made: redo replays them
+                // in this order, and typing the value can change the style
                 diff_list.push(Diff::SetCellValue {
                     sheet,
                     row,
                     column,
                     new_value: target_value.to_string(),
                     old_value: Box::new(old_value),
+                });
+                diff_list.push(Diff::SetCellStyle {
+                    sheet,
+                    row,
+                    column,
+                    old_value: Box::new(old_style),
+                    new_value: Box::new(new_style),
                 });
 
                 self.fill_cell_link(sheet, row, source_column, row, column, old_link, &mut diff_list)?;
